@@ -6,6 +6,7 @@ TB_VERUS = ['Verus 0.2026.09.13 + Z3 (vstd axioms incl. wrapping_* / Box<[u8]> i
 
 UNITS = {
     'timer': {},
+    'joypad': {},
 }
 
 PROPS = {
@@ -21,6 +22,17 @@ PROPS = {
                         'callers deliver at most 4 * 0x30000 clocks per batch',
                         'machine integers are modelled exactly by Verus (overflow checks on)'],
     },
+}
+
+PROPS['C17'] = {
+    'level': 'proof',
+    'verus': ['joypad'],
+    'technique': 'Verus function contracts over the complete transition relation (bit-vector lemmas for the line/edge arithmetic)',
+    'level_text': 'Every function of devices/joypad.rs is extracted from /repo on each run and proved for all 256 button states x 4 selections x all actions: get_value & 0x3f == p1(buttons, selection); press/release/set_value update exactly the named bits; the request is latched iff prev_lines & !new_lines & 0x0f != 0; get_interrupt reports it once and clears it.',
+    'level_note': 'Trusts Verus/Z3, the extraction rules, the joypad spec functions and an assume_specification for std::mem::replace.',
+    'design_ref': 'DESIGN.md 5.17',
+    'trusted_base': TB_VERUS + ['assume_specification std::mem::replace (returns old value, stores new one)'],
+    'assumptions': ['P1 bits 6-7 are outside the property (excluded by its quantifier)'],
 }
 
 HOOK_COMMITS = []
